@@ -393,6 +393,14 @@ func genECDSAPlan(t *rapid.T, sk *skeleton, idx int, pMut int, only ...string) *
 		prog = append([]byte{ms.OP_0, 20}, in.script[3:23]...)
 		pk = ms.P2SHScript(prog)
 	}
+	// the P2SH output commits to ANOTHER script than the witness program the spender reveals
+	// (the witness itself stays valid for the revealed program)
+	if (w == "p2sh-p2wsh" || w == "p2sh-p2wpkh") && mut(t, pMut/5, "foreignP2SH") {
+		other := rapid.SampledFrom([][]byte{{ms.OP_1}, {ms.OP_0}, append([]byte{ms.OP_0, 20}, fill(20, 7)...), append([]byte{ms.OP_0, 32}, fill(32, 9)...),
+			{0x52, 33, 2, 1, 1, 1, 1, 1, 1, 1, 1, 1, 1, 1, 1, 1, 1, 1, 1, 1, 1, 1, 1, 1, 1, 1, 1, 1, 1, 1, 1, 1, 1, 1, 1, 1, ms.OP_1, ms.OP_CHECKMULTISIG}}).Draw(t, "otherScript")
+		pk = ms.P2SHScript(other)
+		p.note("p2sh-output-commits-to-another-script")
+	}
 	// output-side mutations of the witness program
 	if (w == "p2wsh" || w == "p2wpkh") && mut(t, pMut/6, "progLen") {
 		cut := rapid.SampledFrom([]int{-1, 1}).Draw(t, "progDelta")
